@@ -273,3 +273,14 @@ Example C03_source_reader_example :
                [(None, 2%Z);
                 (Some (ImpGen.Imp_sam_SAM (bs "q") 0 (bs "c") 1 2 (bs "*") (bs "=") 3 4 (bs "A") (bs "!") []), 0%Z)]).
 Proof. vm_compute. reflexivity. Qed.
+
+(* ---- the round trip, about the translated source -------------------------------------------------------- *)
+From Bio.Proofs Require ImpProofsW.
+Theorem C03_roundtrip_is_source : forall o r fuel, sam_ok o r ->
+  (length (write o r) + 1 < fuel)%nat ->
+  ImpGen.imp_sam_SAM_MarshalText o (ImpProofsN.sam_of r) = GoSem.Ret (write o r, false) /\
+  exists r' st, ImpGen.imp_samrd_Reader fuel o (GoSem.Stream (write o r) 1%Z None)
+                = GoSem.Ret (st, [(Some (ImpProofsN.sam_of r'), 0%Z)])
+                /\ sam_eq r r'.
+Proof. exact ImpProofsW.sam_roundtrip_src. Qed.
+Print Assumptions C03_roundtrip_is_source.
